@@ -350,6 +350,18 @@ static struct rnode *rnode_grp(char **pat)
 	return rnode_make(RN_GRP, rnode, NULL);
 }
 
+/* read a repetition count; counts above NREPS are reported as larger than NREPS */
+static int rnode_reps(char **pat)
+{
+	int n = 0;
+	while (isdigit((unsigned char) **pat)) {
+		if (n <= NREPS)
+			n = n * 10 + **pat - '0';
+		(*pat)++;
+	}
+	return n;
+}
+
 static struct rnode *rnode_atom(char **pat)
 {
 	struct rnode *rnode;
@@ -376,22 +388,17 @@ static struct rnode *rnode_atom(char **pat)
 		++*pat;
 	}
 	if ((*pat)[0] == '{') {
-		rnode->mincnt = 0;
-		rnode->maxcnt = 0;
 		++*pat;
-		while (isdigit((unsigned char) **pat))
-			rnode->mincnt = rnode->mincnt * 10 + *(*pat)++ - '0';
+		rnode->mincnt = rnode_reps(pat);
 		if (**pat == ',') {
 			(*pat)++;
-			if ((*pat)[0] == '}')
-				rnode->maxcnt = -1;
-			while (isdigit((unsigned char) **pat))
-				rnode->maxcnt = rnode->maxcnt * 10 + *(*pat)++ - '0';
+			rnode->maxcnt = (*pat)[0] == '}' ? -1 : rnode_reps(pat);
 		} else {
 			rnode->maxcnt = rnode->mincnt;
 		}
 		++*pat;
-		if (rnode->mincnt > NREPS || rnode->maxcnt > NREPS) {
+		if (rnode->mincnt > NREPS || rnode->maxcnt > NREPS ||
+				(rnode->maxcnt >= 0 && rnode->maxcnt < rnode->mincnt)) {
 			rnode_free(rnode);
 			return NULL;
 		}
